@@ -38,11 +38,18 @@ type impTarget struct {
 	elem               string   // name of a type treated as an ABSTRACT element type F with operations mul / one / inv (field level)
 	abstract           []string // package-local functions called as ABSTRACT parameters (hash arguments dropped); their source text is
 	// emitted as `abstractSrc` so that an edit of them breaks the proofs that pin it
-	grp string // name of a point type treated as an ABSTRACT group element type G with operations add / dbl / neg / zero (imp_grp.go)
-	inf string // name of the package-level variable holding the point at infinity (read as `zero`)
-	ext bool   // extended parameter set (JointScalarMultiplication / mulGLV): fromAffine, phi, split, limbs, frBits, elBitLen
-	aff string // name of the affine point type (abstract type A, only converted by FromAffine)
+	grp    string     // name of a point type treated as an ABSTRACT group element type G with operations add / dbl / neg / zero (imp_grp.go)
+	inf    string     // name of the package-level variable holding the point at infinity (read as `zero`)
+	ext    bool       // extended parameter set (JointScalarMultiplication / mulGLV): fromAffine, phi, split, limbs, frBits, elBitLen
+	aff    string     // name of the affine point type (abstract type A, only converted by FromAffine)
+	digest bool       // the MiMC digest state machine (imp_digest.go): struct over the abstract element type, field primitives / codecs as parameters
+	guards []impGuard // accepted alternative layout: exported function = panic guard around an unexported body
 }
+
+// impGuard: when the file declares `inner`, the function `name` must have EXACTLY the text `text` (a wrapper that calls
+// `inner` with its own arguments and turns a panic into the result false: panics are not modelled, so the wrapper is the
+// identity on every run the translation speaks about) and `inner` is translated under the name `name`. Anything else: exit.
+type impGuard struct{ name, inner, text string }
 
 var impTargets = []impTarget{
 	{dir: "fiat-shamir", file: "transcript.go", ns: "FiatShamir", out: "Imp/Transcript.lean",
@@ -51,8 +58,13 @@ var impTargets = []impTarget{
 	{dir: "ecc/bn254/fr", file: "element.go", ns: "Exp_bn254_fr", out: "Imp/Exp_bn254_fr.lean", funcs: []string{"Exp"}, elem: "Element"},
 	{dir: "field/hash", file: "hashutils.go", ns: "HashUtils", out: "Imp/ExpandMsgXmd.lean", funcs: []string{"min", "ExpandMsgXmd"}},
 	{dir: "accumulator/merkletree", file: "verify.go", ns: "MerkleVerify", out: "Imp/MerkleVerify.lean", funcs: []string{"VerifyProof"},
-		abstract: []string{"leafSum", "nodeSum", "sum"}},
+		abstract: []string{"leafSum", "nodeSum", "sum"},
+		guards:   []impGuard{{"VerifyProof", "verifyProof", "func VerifyProof(h hash.Hash, merkleRoot []byte, proofSet [][]byte, proofIndex uint64, numLeaves uint64) (ok bool) { defer func() { if r := recover(); r != nil { ok = false } }() return verifyProof(h, merkleRoot, proofSet, proofIndex, numLeaves) }"}}},
+	{dir: "ecc/bn254/fr/mimc", file: "mimc.go", ns: "Mimc_bn254", out: "Imp/Mimc_bn254.lean", funcs: digestFuncs, digest: true},
 }
+
+// methods of the MiMC digest (and the package-level Sum), in dependency order
+var digestFuncs = []string{"Reset", "checksum", "Sum", "Write", "SetState", "State", "WriteString", "pkgSum"}
 
 // ---------------------------------------------------------------------------------------------- types
 
@@ -120,6 +132,8 @@ type impPkg struct {
 	loopInfos     []impLoopInfo
 	grpTranslated map[string]*impSig // methods of the point type translated so far (receiver by value, result = new receiver)
 	translated    map[string]*impSig // pure package-local functions translated so far (callable from later ones)
+	file          *ast.File
+	digMethods    map[string]*impSig // digest mode: methods of the receiver struct translated so far (receiver passed and returned by value)
 }
 
 // helper defs of loops in generation order (inner loops first): what the all-packages-equal proofs need
@@ -129,8 +143,9 @@ type impLoopInfo struct {
 }
 
 type impSig struct {
-	params []*ity
-	result *ity
+	params  []*ity
+	result  *ity
+	results []*ity // methods: all results
 }
 
 var impAbsParams, impAbsArgs string // abstract function parameters carried by every def of the current target
@@ -186,6 +201,12 @@ func (p *impPkg) goType(e ast.Expr) *ity {
 			return &ity{k: "aff"}
 		}
 	case *ast.SelectorExpr:
+		if id, ok := v.X.(*ast.Ident); ok && p.tg.digest && id.Name == "fr" && v.Sel.Name == "Element" {
+			return &ity{k: "elem"}
+		}
+		if id, ok := v.X.(*ast.Ident); ok && p.tg.digest && id.Name == "fr" && v.Sel.Name == "ByteOrder" {
+			return &ity{k: "abs", name: "BO"}
+		}
 		if id, ok := v.X.(*ast.Ident); ok && id.Name == "hash" && v.Sel.Name == "Hash" {
 			return tyHash
 		}
@@ -253,7 +274,7 @@ func (p *impPkg) lty(t *ity, qual bool) string {
 		return "Nat"
 	case "nslice":
 		return "Option " + p.ltyA(t.elem, qual)
-	case "absfn":
+	case "absfn", "abs":
 		return t.name
 	case "elem":
 		return "F"
@@ -293,6 +314,9 @@ func (p *impPkg) lty(t *ity, qual bool) string {
 	case "ptr":
 		return "Option " + p.ltyA(t.elem, qual)
 	case "struct":
+		if p.tg.digest {
+			return t.name + " F BO"
+		}
 		if qual {
 			return p.tg.ns + "." + t.name
 		}
@@ -329,6 +353,16 @@ func (p *impPkg) zero(t *ity) string {
 	case "ptr":
 		return "none"
 	case "struct":
+		if p.tg.digest {
+			var parts []string
+			for _, fl := range p.structs[t.name] {
+				if fl.ty.k == "abs" {
+					die("imp: zero value of %s: the field %s has an abstract (interface) type", t.name, fl.name)
+				}
+				parts = append(parts, fl.name+" := "+p.zero(fl.ty))
+			}
+			return "{ " + strings.Join(parts, ", ") + " }"
+		}
 		return "{}"
 	case "grp":
 		return "uninit"
@@ -338,6 +372,10 @@ func (p *impPkg) zero(t *ity) string {
 		return fmt.Sprintf("List.replicate %d %s", t.n, p.zero(t.elem))
 	case "bigint":
 		return "0"
+	case "elem":
+		if p.tg.digest {
+			return "fZero"
+		}
 	}
 	return "default"
 }
@@ -345,11 +383,12 @@ func (p *impPkg) zero(t *ity) string {
 // ---------------------------------------------------------------------------------------------- loading
 
 func loadImp(tg impTarget) *impPkg {
-	p := &impPkg{tg: tg, fset: token.NewFileSet(), structs: map[string][]impField{}, errVars: map[string]string{}, funcs: map[string]*ast.FuncDecl{}, methods: map[string]*ast.FuncDecl{}, absDecl: map[string]*ast.FuncDecl{}, translated: map[string]*impSig{}, grpTranslated: map[string]*impSig{}}
+	p := &impPkg{tg: tg, fset: token.NewFileSet(), structs: map[string][]impField{}, errVars: map[string]string{}, funcs: map[string]*ast.FuncDecl{}, methods: map[string]*ast.FuncDecl{}, absDecl: map[string]*ast.FuncDecl{}, translated: map[string]*impSig{}, grpTranslated: map[string]*impSig{}, digMethods: map[string]*impSig{}}
 	f, err := parser.ParseFile(p.fset, filepath.Join(repo, tg.dir, tg.file), nil, parser.ParseComments)
 	if err != nil {
 		die("imp: parse: %v", err)
 	}
+	p.file = f
 	// pass 1: struct names (so that field types can refer to structs declared later)
 	var specs []*ast.TypeSpec
 	for _, d := range f.Decls {
@@ -402,8 +441,33 @@ func loadImp(tg impTarget) *impPkg {
 			if tg.grp != "" && (v.Recv == nil || len(v.Recv.List) != 1 || exprText(v.Recv.List[0].Type) != "*"+tg.grp) {
 				continue // a point-type target: only the methods of that type are targets
 			}
-			p.funcs[v.Name.Name] = v
+			if tg.digest && v.Recv == nil { // a method and a package-level function may share their name (Sum)
+				p.funcs["pkg"+v.Name.Name] = v
+			} else {
+				p.funcs[v.Name.Name] = v
+			}
 		}
+	}
+	for _, gd := range tg.guards {
+		in := p.funcs[gd.inner]
+		if in == nil {
+			continue
+		}
+		out := p.funcs[gd.name]
+		if out == nil {
+			die("imp: %s: %s without %s", tg.file, gd.inner, gd.name)
+		}
+		var buf bytes.Buffer
+		doc := out.Doc
+		out.Doc = nil
+		printer.Fprint(&buf, p.fset, out)
+		out.Doc = doc
+		if got := strings.Join(strings.Fields(buf.String()), " "); got != gd.text {
+			die("imp: %s: %s is not the accepted panic guard around %s:\n  %s", tg.file, gd.name, gd.inner, got)
+		}
+		in.Name = ast.NewIdent(gd.name)
+		p.funcs[gd.name] = in
+		delete(p.funcs, gd.inner)
 	}
 	// abstract package-local functions: found in any non-test file of the package
 	if len(tg.abstract) > 0 {
@@ -646,6 +710,32 @@ func (p *impPkg) translateFunc(name string) string {
 		}
 		p.grpTranslated[name] = sig
 	}
+	if p.tg.digest && f.recv == "" {
+		digestArgNames[name] = ""
+		for _, fl := range fd.Type.Params.List {
+			for _, n := range fl.Names {
+				digestArgNames[name] += " " + lname(n.Name)
+			}
+		}
+	}
+	if p.tg.digest && f.recv != "" && !f.evRecv {
+		if len(f.fuels) != 0 || u.W || u.H || u.S || u.B || f.usesNumCPU {
+			p.die(fd, "digest method with fuel / hash parameters")
+		}
+		sig := &impSig{results: f.results}
+		digestArgNames[name] = " " + lname(f.recv)
+		for _, fl := range fd.Type.Params.List {
+			for _, n := range fl.Names {
+				digestArgNames[name] += " " + lname(n.Name)
+			}
+		}
+		for _, fl := range fd.Type.Params.List {
+			for range fl.Names {
+				sig.params = append(sig.params, p.paramType(fl.Type))
+			}
+		}
+		p.digMethods[name] = sig
+	}
 	var b strings.Builder
 	for _, h := range f.helpers {
 		b.WriteString(h + "\n")
@@ -661,9 +751,13 @@ var famSigs = map[string]string{} // "<ns>.<fn>" -> Lean type of the translated 
 var impOnly string
 
 func impPassOf(out string) string {
+	// a family of per-package files <Fam>_<pkg>.lean + <Fam>All.lean is ONE sub-pass <Fam> (same rule in bin/check)
 	b := strings.TrimSuffix(filepath.Base(out), ".lean")
-	if strings.HasPrefix(b, "Exp_") || b == "ExpAll" {
-		return "Exp"
+	if i := strings.Index(b, "_"); i > 0 {
+		return b[:i]
+	}
+	if strings.HasSuffix(b, "All") && len(b) > 3 {
+		return b[:len(b)-3]
 	}
 	for _, fam := range grpFamilies {
 		if strings.HasPrefix(b, fam.name+"_") || b == fam.name+"All" {
@@ -702,6 +796,12 @@ func runImp() {
 		}
 		targets = append(targets, impTarget{dir: d, file: "element.go", ns: "Exp_" + n, out: "Imp/Exp_" + n + ".lean", funcs: []string{"Exp"}, elem: "Element"})
 	}
+	targets = append(targets, digestTargets()...)
+	defer func() {
+		if impOnly == "" || impOnly == "Mimc" {
+			emitMimcAll()
+		}
+	}()
 	defer func() {
 		if impOnly != "" && impOnly != "Exp" {
 			return
@@ -758,6 +858,9 @@ func runImp() {
 		if tg.elem != "" {
 			impAbsParams, impAbsArgs = " {F : Type} (mul : F → F → F) (one : F) (inv : F → F)", " mul one inv"
 		}
+		if tg.digest {
+			impAbsParams, impAbsArgs = digestAbsParams, digestAbsArgs
+		}
 		out := filepath.Join(outDir, tg.out)
 		dieHook = func() { os.Remove(out) } // a failed translation must not leave the previous run's file behind
 		p := loadImp(tg)
@@ -765,10 +868,14 @@ func runImp() {
 		fmt.Fprintf(&b, "/- GENERATED by tools/goslp (imp.go) from /repo/%s/%s on every run. DO NOT EDIT.\n", tg.dir, tg.file)
 		b.WriteString("   Statement-by-statement translation of imperative Go; the value vocabulary and its semantics: Model/GoImp.lean. -/\n")
 		if tg.grp != "" {
-			b.WriteString("import GnarkVerif.Model.GoImpGrp\n\nset_option linter.unusedVariables false\n\n")
+			b.WriteString("import GnarkVerif.Model.GoImpGrp\n")
 		} else {
-			b.WriteString("import GnarkVerif.Model.GoImp\n\nset_option linter.unusedVariables false\n\n")
+			b.WriteString("import GnarkVerif.Model.GoImp\n")
 		}
+		if tg.digest {
+			b.WriteString(digestImports(tg))
+		}
+		b.WriteString("\nset_option linter.unusedVariables false\n\n")
 		fmt.Fprintf(&b, "namespace GV.Gen.Imp.%s\nopen GV.GoImp\n\n", tg.ns)
 		if tg.elem != "" || tg.grp != "" { // a field / curve package: only the targeted functions matter
 			p.errOrd, p.order = nil, nil
@@ -777,6 +884,10 @@ func runImp() {
 			fmt.Fprintf(&b, "/-- `var %s = errors.New(%s)` -/\n@[reducible] def %s : Err := Err.sentinel %q\n", e, strings.ReplaceAll(p.errVars[e], "-/", "- /"), e, e)
 		}
 		b.WriteString("\n")
+		if tg.digest {
+			b.WriteString(p.digestPrelude())
+			p.order = nil
+		}
 		for _, sn := range p.structOrder() {
 			fmt.Fprintf(&b, "structure %s where\n", sn)
 			for _, fl := range p.structs[sn] {
